@@ -30,6 +30,14 @@ pub struct NetCfg {
     pub mtu_change: Option<(u64, usize)>,
     /// no random faults before this many datagrams per direction (lets the handshake through when > 0)
     pub skip_first: u64,
+    /// number of forged datagrams (random bytes, garbage with a plausible header, fake stateless resets) injected
+    /// towards each endpoint at random times in [inject_from_us, inject_to_us)
+    #[serde(default)]
+    pub inject: u32,
+    #[serde(default)]
+    pub inject_from_us: u64,
+    #[serde(default)]
+    pub inject_to_us: u64,
 }
 
 pub struct AdvNet {
@@ -38,16 +46,31 @@ pub struct AdvNet {
     idx: HashMap<&'static str, u64>,
     sched: HashMap<(String, u64), String>,
     pub server: Arc<Mutex<Option<SocketAddr>>>,
-    /// datagrams to inject: (at_us, to_server, payload, claimed source)
-    pub inject: Arc<Mutex<Vec<(u64, bool, Vec<u8>, SocketAddr)>>>,
+    /// datagrams to inject: (at_us, to_server, payload)
+    pub inject: Arc<Mutex<Vec<(u64, bool, Vec<u8>)>>>,
     pub client_addrs: Arc<Mutex<Vec<SocketAddr>>>,
 }
 
 impl AdvNet {
     pub fn new(cfg: NetCfg, seed: u64) -> Self {
         let sched = cfg.schedule.iter().map(|(d, i, a)| ((d.clone(), *i), a.clone())).collect();
-        Self { cfg, rng: StdRng::seed_from_u64(seed ^ 0xabad_1dea), idx: HashMap::new(), sched, server: Default::default(),
-               inject: Default::default(), client_addrs: Default::default() }
+        let mut rng = StdRng::seed_from_u64(seed ^ 0xabad_1dea);
+        let mut inj = Vec::new();
+        if cfg.inject > 0 && cfg.inject_to_us > cfg.inject_from_us {
+            for k in 0..2 * cfg.inject {
+                let t = rng.random_range(cfg.inject_from_us..cfg.inject_to_us);
+                let len = [21usize, 40, 53, 100, 1200][rng.random_range(0..5)] + rng.random_range(0..9);
+                let mut p: Vec<u8> = (0..len).map(|_| rng.random()).collect();
+                match rng.random_range(0..4) {
+                    0 => p[0] = 0x40 | (p[0] & 0x3f),        // short header form (also what a stateless reset looks like)
+                    1 => { p[0] = 0xc0 | (p[0] & 0x3f); p[1..5].copy_from_slice(&[0, 0, 0, 1]); } // long header, QUIC v1
+                    _ => {}
+                }
+                inj.push((t, k % 2 == 0, p));
+            }
+        }
+        Self { cfg, rng, idx: HashMap::new(), sched, server: Default::default(),
+               inject: Arc::new(Mutex::new(inj)), client_addrs: Default::default() }
     }
 
     fn decide(&mut self, dir: &'static str, idx: u64, now: u64, len: usize) -> String {
@@ -111,9 +134,10 @@ impl Network for AdvNet {
         };
         let server = *self.server.lock().unwrap();
         let mut count = 0;
-        for (_t, to_server, payload, src) in due {
+        for (_t, to_server, payload) in due {
             let Some(server) = server else { continue };
-            let dst: SocketAddr = if to_server { server } else { self.client_addrs.lock().unwrap().first().copied().unwrap_or(src) };
+            let Some(client) = self.client_addrs.lock().unwrap().last().copied() else { continue };
+            let (src, dst): (SocketAddr, SocketAddr) = if to_server { (client, server) } else { (server, client) };
             let len = payload.len();
             let packet = Packet {
                 path: s2n_quic_core::path::Tuple { remote_address: s2n_quic_core::inet::SocketAddress::from(src).into(), local_address: s2n_quic_core::inet::SocketAddress::from(dst).into() },
